@@ -365,7 +365,7 @@ func runShardRestarting(bin, prop, tier, fl string, shard, n int, seed int64, bu
 			iso := runShard(bin, prop, tier, fl, 1000+shard, n, seed, budget, o.crash, memKB, gomax, "")
 			if !iso.died && iso.res != nil {
 				outs[len(outs)-1].notReproduced = true
-				iso.res.Notes = append(iso.res.Notes, "a worker died of memory exhaustion while holding the heap of earlier cases; its current case was re-run alone in a fresh process (same limits) and passed, so the death is not attributed to the input; the worker was restarted after that case")
+				iso.res.Notes = append(iso.res.Notes, "a worker died (memory exhaustion while holding the heap of earlier cases, or its watchdog in a loaded process); its current case was re-run alone in a fresh process (same limits, watchdog 120 s) and passed, so the death is not attributed to the input; the worker was restarted after that case")
 				outs = append(outs, iso)
 			}
 		}
